@@ -96,7 +96,7 @@ def classify(code):
 GROUP_MAX = 4
 # quick tier must finish within 900 s from a cold cache on 16 cores: one memory-operand pattern per
 # mnemonic file (None = no memory shape in quick), accumulator-immediate forms of two ALU mnemonics only
-QUICK_MEM_PATTERN = {"add": "rm_r", "adc": "r_rm", "sub": "rm_imm", "and": "rm_imm", "xor": "rm_r", "cmp": "r_rm", "test": "rm_r",
+QUICK_MEM_PATTERN = {"add": "rm_r", "adc": "r_rm", "sub": "rm_r", "and": "r_rm", "xor": "rm_r", "cmp": "r_rm", "test": "rm_r",
                      "mov": "rm_r", "shl": "rm_CL", "shr": "rm_imm", "cmovae": None, "cmovne": None, "setb": None, "setne": None,
                      "nop": None, "dec": None, "not": None}
 QUICK_PLAIN_SKIP = {"adc", "and", "xor", "cmp", "test"}
@@ -492,7 +492,7 @@ def form_block(form, cls, enc, shape, d, suffix="", only_props=None):
         lines.append("kani::assume(pre.r[RSP_I].wrapping_add(8) != ax.stack_top && pre.r[RSP_I] != ax.stack_top);")
     # C18 content obligations: one representative form per transfer kind in the quick tier (a trace
     # pre-state makes a branch harness 4-6x slower for the solver); every form in the thorough tier
-    TRACE_REPR = ("Jmp_rel8_64", "Jne_rel8_64", "Jg_rel32_64", "Call_rel32_64", "Call_rm64", "Retnq", "Jmp_rm64", "Jrcxz_rel8_64")
+    TRACE_REPR = ("Jne_rel8_64", "Call_rel32_64", "Retnq", "Jmp_rm64")
     traced = klass in ("branch", "callret") and cls["op"] != "Other" and (form["code"] in TRACE_REPR or THOROUGH[0])
     if traced:
         props += ",C18"
